@@ -71,6 +71,7 @@ type Engine struct {
 	sizes     types.Sizes
 	funcByName map[string]*ssa.Function
 	icache       sync.Map
+	tabCache     sync.Map
 	knownOpen    map[string]bool
 	initWarnings []string
 }
@@ -247,6 +248,11 @@ func (r *Run) callFunction(fn *ssa.Function, args []Value, bindings []Value) (re
 		r.inReplacement[fn] = true
 		defer func() { r.inReplacement[fn] = false }()
 		return r.callValue(rep, args, nil)
+	}
+	if r.tabulate[fn] && len(args) == 1 {
+		if t, ok := args[0].(*Term); ok && !t.IsConst() {
+			return r.tabulated(fn, t)
+		}
 	}
 	if fn.Blocks == nil {
 		if h := r.eng.intrinsic(fn); h != nil {
@@ -774,7 +780,7 @@ func (r *Run) builtin(b *ssa.Builtin, args []Value, c *ssa.CallCommon) Value {
 				sa := r.sliceArr(src)
 				tmp := make([]Value, n)
 				for i := 0; i < n; i++ {
-					tmp[i] = copyVal(sa.e[src.off+i])
+					tmp[i] = r.fixSort(copyVal(sa.e[src.off+i]), nil)
 				}
 				da := r.sliceArrW(dst)
 				for i := 0; i < n; i++ {
@@ -869,7 +875,7 @@ func (r *Run) doAppend(s *SliceV, more Value, c *ssa.CallCommon) Value {
 		if m.len > 0 {
 			a := r.sliceArr(m)
 			for i := 0; i < m.len; i++ {
-				add = append(add, copyVal(a.e[m.off+i]))
+				add = append(add, r.fixSort(copyVal(a.e[m.off+i]), nil))
 			}
 		}
 	case StrV:
@@ -1117,7 +1123,7 @@ func (r *Run) unop(fr *Frame, x *ssa.UnOp) Value {
 	v := r.get(fr, x.X)
 	switch x.Op {
 	case token.MUL:
-		return r.load(v.(*PtrV))
+		return r.fixSort(r.load(v.(*PtrV)), x.Type())
 	case token.NOT:
 		return r.ts.BNot(v.(*Term))
 	case token.SUB:
@@ -1682,7 +1688,7 @@ func (r *Run) lookup(fr *Frame, x *ssa.Lookup) Value {
 		}
 		var v Value
 		if e != nil {
-			v = copyVal(e.val)
+			v = r.fixSort(copyVal(e.val), vt)
 		} else {
 			v = r.zero(vt)
 		}
@@ -1736,19 +1742,60 @@ func (r *Run) next(fr *Frame, x *ssa.Next) Value {
 			it.pos++
 			return res
 		}
-		// non-ASCII: concretise the remaining sequence bytes (rare in our harnesses)
+		// non-ASCII: fork on the shape of the UTF-8 sequence (valid 2-, 3-, 4-byte sequence, else invalid),
+		// the rune value stays a term
 		rest := it.str.b[it.pos:]
-		n := len(rest)
-		if n > 4 {
-			n = 4
+		cb := func(v uint64) *Term { return r.constLike(b0, v) }
+		in := func(x *Term, lo, hi uint64) *Term { return ts.BAnd(ts.Ule(cb(lo), x), ts.Ule(x, cb(hi))) }
+		w32 := func(x *Term) *Term {
+			if x.w == IntW {
+				return x
+			}
+			return ts.ZExt(x, 32)
 		}
-		buf := make([]byte, n)
-		for i := 0; i < n; i++ {
-			buf[i] = byte(r.concretize(ts.ZExt(rest[i], 64), "utf8 byte"))
+		k32 := func(v uint64) *Term {
+			if b0.w == IntW {
+				return ts.IConstU(v)
+			}
+			return ts.Const(32, v)
 		}
-		ru, size := decodeRune(buf)
-		res := TupleV{ts.Bool(true), ts.Const(64, uint64(it.pos)), ts.Const(32, uint64(uint32(ru)))}
-		it.pos += size
+		mk := func(n int, cond *Term, val *Term) (Value, bool) {
+			if len(rest) < n {
+				return nil, false
+			}
+			if r.branch(cond) {
+				res := TupleV{ts.Bool(true), ts.Const(64, uint64(it.pos)), val}
+				it.pos += n
+				return res, true
+			}
+			return nil, false
+		}
+		cont := func(x *Term) *Term { return in(x, 0x80, 0xBF) }
+		sub := func(x *Term, v uint64) *Term { return ts.Sub(w32(x), k32(v)) }
+		if len(rest) >= 2 {
+			v := ts.Add(ts.Mul(sub(rest[0], 0xC0), k32(64)), sub(rest[1], 0x80))
+			if res, ok := mk(2, ts.BAnd(in(rest[0], 0xC2, 0xDF), cont(rest[1])), v); ok {
+				return res
+			}
+		}
+		if len(rest) >= 3 {
+			b1ok := ts.BOr(ts.BOr(ts.BAnd(ts.Eq(rest[0], cb(0xE0)), in(rest[1], 0xA0, 0xBF)), ts.BAnd(ts.Eq(rest[0], cb(0xED)), in(rest[1], 0x80, 0x9F))),
+				ts.BAnd(ts.BOr(in(rest[0], 0xE1, 0xEC), in(rest[0], 0xEE, 0xEF)), cont(rest[1])))
+			v := ts.Add(ts.Add(ts.Mul(sub(rest[0], 0xE0), k32(4096)), ts.Mul(sub(rest[1], 0x80), k32(64))), sub(rest[2], 0x80))
+			if res, ok := mk(3, ts.BAnd(b1ok, cont(rest[2])), v); ok {
+				return res
+			}
+		}
+		if len(rest) >= 4 {
+			b1ok := ts.BOr(ts.BOr(ts.BAnd(ts.Eq(rest[0], cb(0xF0)), in(rest[1], 0x90, 0xBF)), ts.BAnd(ts.Eq(rest[0], cb(0xF4)), in(rest[1], 0x80, 0x8F))),
+				ts.BAnd(in(rest[0], 0xF1, 0xF3), cont(rest[1])))
+			v := ts.Add(ts.Add(ts.Add(ts.Mul(sub(rest[0], 0xF0), k32(262144)), ts.Mul(sub(rest[1], 0x80), k32(4096))), ts.Mul(sub(rest[2], 0x80), k32(64))), sub(rest[3], 0x80))
+			if res, ok := mk(4, ts.BAnd(ts.BAnd(b1ok, cont(rest[2])), cont(rest[3])), v); ok {
+				return res
+			}
+		}
+		res := TupleV{ts.Bool(true), ts.Const(64, uint64(it.pos)), k32(0xFFFD)}
+		it.pos++
 		return res
 	}
 	mt := x.Iter.(*ssa.Range).X.Type().Underlying().(*types.Map)
@@ -1767,7 +1814,7 @@ func (r *Run) next(fr *Frame, x *ssa.Next) Value {
 		if live == nil {
 			continue
 		}
-		return TupleV{ts.Bool(true), copyVal(live.key), copyVal(live.val)}
+		return TupleV{ts.Bool(true), r.fixSort(copyVal(live.key), mt.Key()), r.fixSort(copyVal(live.val), mt.Elem())}
 	}
 	return TupleV{ts.Bool(false), r.zero(mt.Key()), r.zero(mt.Elem())}
 }
@@ -1785,3 +1832,60 @@ func decodeRune(b []byte) (rune, int) {
 }
 
 var _ = big.NewInt
+
+// tabulated evaluates a pure single-argument function concretely on every value of its (small) argument
+// domain and returns the table lookup.
+func (r *Run) tabulated(fn *ssa.Function, arg *Term) Value {
+	var hi int64
+	if arg.w == IntW {
+		if !arg.lo.IsInt64() || !arg.hi.IsInt64() || arg.hi.Int64() > 4096 || arg.lo.Sign() < 0 {
+			panic(unsupported("Tabulate: argument domain too large"))
+		}
+		hi = arg.hi.Int64()
+	} else {
+		if arg.w > 12 {
+			panic(unsupported("Tabulate: argument wider than 12 bits"))
+		}
+		hi = int64(mask(arg.w))
+	}
+	key := fmt.Sprintf("tab:%p:%d:%v", fn, hi, r.ts.intMode)
+	var vals []uint64
+	var rw int
+	if v, ok := r.eng.tabCache.Load(key); ok {
+		c := v.(*tabCacheEntry)
+		vals, rw = c.vals, c.w
+	} else {
+		vals = make([]uint64, hi+1)
+		saved := r.tabulate[fn]
+		r.tabulate[fn] = false
+		for v := int64(0); v <= hi; v++ {
+			var a *Term
+			if r.ts.intMode {
+				a = r.ts.IConst64(v)
+			} else {
+				a = r.ts.Const(arg.w, uint64(v))
+			}
+			res, ok := r.callFunction(fn, []Value{a}, nil).(*Term)
+			if !ok || !res.IsConst() {
+				panic(unsupported("Tabulate: result is not a concrete scalar"))
+			}
+			rw = res.w
+			if res.w == IntW {
+				vals[v] = uint64(res.bk.Int64())
+			} else {
+				vals[v] = res.k
+			}
+		}
+		r.tabulate[fn] = saved
+		r.eng.tabCache.Store(key, &tabCacheEntry{vals: vals, w: rw})
+	}
+	if r.ts.intMode {
+		return r.ts.ISelect(internTable(vals, IntW), arg)
+	}
+	return r.ts.Select(internTable(vals, rw), arg)
+}
+
+type tabCacheEntry struct {
+	vals []uint64
+	w    int
+}
